@@ -372,12 +372,30 @@ impl AssemblyCode {
                     {
                         // The load also sets N and Z: it can only go if the flags already
                         // describe A, or if what follows does not branch on them
-                        let flags_read_next = match iter.peek() {
-                            Some(AsmLine::Instruction(n)) => matches!(
-                                n.mnemonic,
-                                AsmMnemonic::BEQ | AsmMnemonic::BNE | AsmMnemonic::BMI | AsmMnemonic::BPL
-                            ),
-                            _ => true,
+                        // (stores in between leave the flags alone: look past them)
+                        let flags_read_next = loop {
+                            match iter.peek() {
+                                Some(AsmLine::Instruction(n)) => match n.mnemonic {
+                                    AsmMnemonic::STA | AsmMnemonic::STX | AsmMnemonic::STY => continue,
+                                    AsmMnemonic::BEQ
+                                    | AsmMnemonic::BNE
+                                    | AsmMnemonic::BMI
+                                    | AsmMnemonic::BPL => break true,
+                                    AsmMnemonic::LDA
+                                    | AsmMnemonic::LDX
+                                    | AsmMnemonic::LDY
+                                    | AsmMnemonic::CMP
+                                    | AsmMnemonic::CPX
+                                    | AsmMnemonic::CPY
+                                    | AsmMnemonic::ADC
+                                    | AsmMnemonic::SBC
+                                    | AsmMnemonic::AND
+                                    | AsmMnemonic::ORA
+                                    | AsmMnemonic::EOR => break false,
+                                    _ => break true,
+                                },
+                                _ => break true,
+                            }
                         };
                         iter.reset_peek();
                         if flags == FlagsState::A || !flags_read_next {
